@@ -13,7 +13,8 @@ from vlib import bench, par
 from vlib.runner import Result, violation
 
 PIECES = [b"/", b"//", b"a", b".", b"..", b"%41", b"%2F", b"%2f", b"%00", b"%", b"%zz", b"%e9", b"\xe9", b"\xc3\xa9",
-          b"+", b";p", b"?", b"?a=b", b"&", b"#f", b"*", b"http://h", b"http://h:80", b"HTTP://H", b"//h/p", b"/app"]
+          b"+", b";p", b"?", b"?a=b", b"&", b"#f", b"*", b"http://h", b"http://h:80", b"HTTP://H", b"//h/p", b"/app",
+          b"%25", b"41"]
 HEXD = b"0123456789abcdefABCDEF"
 
 
@@ -46,8 +47,9 @@ def ref_target(target):
 
 
 FIELD_ITEMS = [("Host", "HTTP_HOST"), ("Content-Type", "CONTENT_TYPE"), ("X-A", "HTTP_X_A"), ("x-a", "HTTP_X_A"),
-               ("Cookie", "HTTP_COOKIE"), ("Accept", "HTTP_ACCEPT"), ("X-B-C", "HTTP_X_B_C"), ("X_Under", None)]
-VALUE_KINDS = [b"v1", b"caf\xe9", b"  padded \t", b"", b"a,b", b"v2", b"\x0bvt\x0c", b"\xa0nb\x85", b"\x1fus\x1c"]
+               ("Cookie", "HTTP_COOKIE"), ("Accept", "HTTP_ACCEPT"), ("X-B-C", "HTTP_X_B_C"), ("X_Under", None),
+               ("Script-Name", "HTTP_SCRIPT_NAME"), ("Content_Type", None)]
+VALUE_KINDS = [b"/app", b"v1", b"caf\xe9", b"  padded \t", b"", b"a,b", b"v2", b"\x0bvt\x0c", b"\xa0nb\x85", b"\x1fus\x1c"]
 
 
 def field_lists(maxn):
